@@ -36,7 +36,7 @@ class StorageFacts:
             self.init_values[d[1]] = val
             if isinstance(val, ast.Call):
                 name = prog.external_name(init.mod, val.func) or src(val.func)
-                if name.endswith("_manager.list") or name.endswith(".list") and "manager" in name.lower():
+                if name.endswith(".list") and "manager" in name.lower():
                     self.shared_lists.append(d[1])
                 elif name.split(".")[-1] == "Value":
                     self.shared_values.append(d[1])
